@@ -100,6 +100,22 @@ fn mul4x4_abs(matrix: &[Float; 16], x: Float, y: Float, z: Float) -> Point3D {
     Point3D::new(err_x, err_y, err_z)
 }
 
+/// Absolute-value product with the linear part only (no translation column): carries an
+/// input error through the transform
+fn mul3x3_abs(matrix: &[Float; 16], x: Float, y: Float, z: Float) -> Point3D {
+    let err_x = (matrix[elem!(0, 0)] * x).abs()
+        + (matrix[elem!(0, 1)] * y).abs()
+        + (matrix[elem!(0, 2)] * z).abs();
+    let err_y = (matrix[elem!(1, 0)] * x).abs()
+        + (matrix[elem!(1, 1)] * y).abs()
+        + (matrix[elem!(1, 2)] * z).abs();
+    let err_z = (matrix[elem!(2, 0)] * x).abs()
+        + (matrix[elem!(2, 1)] * y).abs()
+        + (matrix[elem!(2, 2)] * z).abs();
+
+    Point3D::new(err_x, err_y, err_z)
+}
+
 /// Multiplies two 4x4 matrices, represented as `[Float; 16]`
 pub fn mul4x4(m1: &[Float; 16], m2: &[Float; 16]) -> [Float; 16] {
     let mut ret = [0.; 16];
@@ -338,7 +354,7 @@ impl Transform {
 
         // propagate error
         let (x, y, z) = (error.x, error.y, error.z);
-        let err1 = mul4x4_abs(&self.elements, x, y, z) * (1. + gamma!(3));
+        let err1 = mul3x3_abs(&self.elements, x, y, z) * (1. + gamma!(3));
 
         (ret, err1 + err2)
     }
@@ -354,7 +370,7 @@ impl Transform {
 
         // propagate error
         let (x, y, z) = (error.x, error.y, error.z);
-        let err1 = mul4x4_abs(&self.inv_elements, x, y, z) * (1. + gamma!(3));
+        let err1 = mul3x3_abs(&self.inv_elements, x, y, z) * (1. + gamma!(3));
 
         (ret, err1 + err2)
     }
@@ -406,7 +422,7 @@ impl Transform {
 
         // propagate error
         let (x, y, z) = (error.x, error.y, error.z);
-        let err1 = mul4x4_abs(&self.elements, x, y, z) * (1. + gamma!(3));
+        let err1 = mul3x3_abs(&self.elements, x, y, z) * (1. + gamma!(3));
 
         (ret, err1 + err2)
     }
@@ -422,7 +438,7 @@ impl Transform {
 
         // propagate error
         let (x, y, z) = (error.x, error.y, error.z);
-        let err1 = mul4x4_abs(&self.inv_elements, x, y, z) * (1. + gamma!(3));
+        let err1 = mul3x3_abs(&self.inv_elements, x, y, z) * (1. + gamma!(3));
 
         (ret, err1 + err2)
     }
